@@ -433,6 +433,7 @@ impl Stats {
     /// Count one executed case; `nontrivial` carries the canonical encoding if the case is non-trivial.
     pub fn eval(&mut self, nontrivial: Option<&[u8]>) {
         self.evaluations += 1;
+        CASE_SEQ.fetch_add(1, std::sync::atomic::Ordering::Relaxed);
         if let Some(b) = nontrivial {
             self.hashes.insert(fnv64(b));
         }
@@ -500,6 +501,7 @@ pub fn emit_line(j: &J) {
 }
 
 pub fn emit_progress(i: u64) {
+    CASE_SEQ.fetch_add(1, std::sync::atomic::Ordering::Relaxed);
     emit_line(&J::obj(vec![("t", J::s("prog")), ("i", J::Int(i as i64))]));
     let _ = std::io::stdout().flush();
 }
@@ -577,4 +579,44 @@ pub fn visible(s: &str) -> String {
         }
     }
     o
+}
+
+// ------------------------------------------------------------------------------------------------
+// Watchdog: the case being executed, and a thread that aborts the process when one case runs too long
+// ------------------------------------------------------------------------------------------------
+
+static CURRENT_CASE: std::sync::Mutex<(u64, String)> = std::sync::Mutex::new((0, String::new()));
+static CASE_SEQ: std::sync::atomic::AtomicU64 = std::sync::atomic::AtomicU64::new(0);
+
+/// Remember the input about to be handed to the library (for the watchdog's report).
+pub fn set_current_case(s: &str) {
+    let seq = CASE_SEQ.fetch_add(1, std::sync::atomic::Ordering::Relaxed) + 1;
+    if let Ok(mut g) = CURRENT_CASE.lock() {
+        g.0 = seq;
+        g.1.clear();
+        // keep at most 64 KiB of the input
+        let cut = s.char_indices().nth(16384).map_or(s.len(), |x| x.0);
+        g.1.push_str(&s[..cut]);
+    }
+}
+
+/// Start the wall-clock watchdog: if the same case is still running after `secs` seconds, print
+/// it on stderr (`WATCHDOG {json}`) and abort. Its firing is classified by the driver.
+pub fn start_watchdog(secs: u64) {
+    std::thread::spawn(move || {
+        let mut last_seq = 0u64;
+        let mut since = std::time::Instant::now();
+        loop {
+            std::thread::sleep(std::time::Duration::from_millis(500));
+            let seq = CASE_SEQ.load(std::sync::atomic::Ordering::Relaxed);
+            if seq != last_seq {
+                last_seq = seq;
+                since = std::time::Instant::now();
+            } else if seq != 0 && since.elapsed().as_secs() >= secs {
+                let case = CURRENT_CASE.lock().map(|g| g.1.clone()).unwrap_or_default();
+                eprintln!("WATCHDOG {}", J::obj(vec![("input", J::s(&case)), ("seconds", J::Int(secs as i64))]).to_string());
+                std::process::abort();
+            }
+        }
+    });
 }
